@@ -48,10 +48,10 @@ theorem RData.parse_frame (pre : Bytes) (ty : Nat) (mid rd post : Bytes)
       if TYPE.ofCode ty = .OPT then
         optParse (pre ++ (beN 2 ty ++ (mid ++ (beN 2 rd.length ++ rd)))) pre.length
       else if rd.length = 0 then .ok (.empty (TYPE.ofCode ty), pre.length + 10)
-      else do
+      else (do
         let (x, _) ← parseTyped (pre ++ (beN 2 ty ++ (mid ++ (beN 2 rd.length ++ rd))))
           (pre.length + 10) (TYPE.ofCode ty)
-        pure (x, pre.length + 10 + rd.length) := by
+        pure (x, pre.length + 10 + rd.length)) := by
   have htake : ∀ n, n = pre.length + rd.length + 10 →
       (pre ++ (beN 2 ty ++ (mid ++ (beN 2 rd.length ++ (rd ++ post))))).take n
         = pre ++ (beN 2 ty ++ (mid ++ (beN 2 rd.length ++ rd))) := by
@@ -61,7 +61,7 @@ theorem RData.parse_frame (pre : Bytes) (ty : Nat) (mid rd post : Bytes)
     rw [e]
     exact List.take_left' (by simp [hmid]; omega)
   unfold RData.parse
-  rw [if_neg (by simp [hmid])]
+  rw [if_neg (by simp [hmid]; omega)]
   rw [slice_at (a := pre) (m := beN 2 ty) (z := mid ++ (beN 2 rd.length ++ (rd ++ post))) rfl rfl
     (by simp)]
   simp only [Out.bind_ok]
@@ -86,7 +86,7 @@ theorem optParse_frame (pre : Bytes) (ty udp ttl : Nat) (lenb : Bytes) (codes : 
       = .ok (.opt { udp := udp, version := (ttl >>> 8) % 256, codes := codes },
           pre.length + 10 + (encTlvs 2 2 codes).length) := by
   unfold optParse
-  rw [if_neg (by simp [hlenb])]
+  rw [if_neg (by simp [hlenb]; omega)]
   rw [slice_at (a := pre ++ beN 2 ty) (m := beN 2 udp)
     (z := beN 4 ttl ++ (lenb ++ encTlvs 2 2 codes)) (by simp) (by simp) (by simp)]
   simp only [Out.bind_ok]
@@ -134,6 +134,7 @@ theorem ipseckeyParse_frame (pre : Bytes) (prec alg : Nat) (gw : Gateway) (key :
   | none =>
     have := hkey []
     simp only [Gateway.write, Gateway.tag, List.nil_append, List.length_nil, Nat.add_zero] at this ⊢
+    simp at this ⊢
     simp [this]
   | v4 a =>
     have := hkey (beN 4 a)
@@ -143,7 +144,10 @@ theorem ipseckeyParse_frame (pre : Bytes) (prec alg : Nat) (gw : Gateway) (key :
       slice_at (a := pre ++ [UInt8.ofNat prec, UInt8.ofNat 1, UInt8.ofNat alg]) (m := beN 4 a)
         (z := key) (by simp) (by simp) (by simp)
     simp only [Gateway.WF] at hgw
-    simp [hs, this, deN_beN 4 a (by simpa using hgw)]
+    simp at this hs ⊢
+    simp [hs, deN_beN 4 a (by simpa using hgw)]
+    rw [if_neg (by omega)]
+    simp [this]
   | v6 a =>
     have := hkey (beN 16 a)
     simp only [Gateway.write, Gateway.tag, beN_length] at this ⊢
@@ -152,7 +156,10 @@ theorem ipseckeyParse_frame (pre : Bytes) (prec alg : Nat) (gw : Gateway) (key :
       slice_at (a := pre ++ [UInt8.ofNat prec, UInt8.ofNat 2, UInt8.ofNat alg]) (m := beN 16 a)
         (z := key) (by simp) (by simp) (by simp)
     simp only [Gateway.WF] at hgw
-    simp [hs, this, deN_beN 16 a (by simpa using hgw)]
+    simp at this hs ⊢
+    simp [hs, deN_beN 16 a (by simpa using hgw)]
+    rw [if_neg (by omega)]
+    simp [this]
   | domain n =>
     have := hkey (Name.write n)
     simp only [Gateway.write, Gateway.tag, Name.write_length] at this ⊢
@@ -160,6 +167,129 @@ theorem ipseckeyParse_frame (pre : Bytes) (prec alg : Nat) (gw : Gateway) (key :
     have hn := Name.parse_write hgw (pre ++ [UInt8.ofNat prec, UInt8.ofNat 3, UInt8.ofNat alg]) key
     simp only [List.append_assoc, List.cons_append, List.nil_append, List.length_append,
       List.length_cons, List.length_nil] at hn
+    simp at this hn ⊢
     simp [hn, this]
+
+/-! ### the RDATA writer -/
+
+theorem RData.WF.typeOf_facts {rd : RData} (h : rd.WF) :
+    rd.typeOf.toCode < 65536 ∧ TYPE.ofCode rd.typeOf.toCode = rd.typeOf ∧
+    ((∀ o, rd ≠ .opt o) → rd.typeOf ≠ .OPT) := by
+  cases rd with
+  | flat code vs =>
+    simp only [RData.WF, SchemaOK] at h
+    cases hs : schemaOf code with
+    | none => simp [hs] at h
+    | some ks =>
+      obtain ⟨_, _, _, h4, h5⟩ := schemaOf_facts hs
+      refine ⟨?_, ?_, fun _ => h5⟩
+      · simp only [RData.typeOf, type_toCode_ofCode]; exact h4
+      · simp only [RData.typeOf, type_toCode_ofCode]
+  | ipseckey prec alg gw key =>
+    exact ⟨by simp [RData.typeOf, TYPE.toCode], by simp [RData.typeOf, TYPE.toCode, TYPE.ofCode],
+      fun _ => by simp [RData.typeOf]⟩
+  | opt o =>
+    exact ⟨by simp [RData.typeOf, TYPE.toCode], by simp [RData.typeOf, TYPE.toCode, TYPE.ofCode],
+      fun h => absurd rfl (h o)⟩
+  | null code data =>
+    simp only [RData.WF] at h
+    refine ⟨?_, ?_, fun _ => ?_⟩
+    · simp only [RData.typeOf, type_toCode_ofCode]; exact h.2.2.1
+    · simp only [RData.typeOf, type_toCode_ofCode]
+    simp only [RData.typeOf]
+    rcases h.2.2.2 with h10 | hu
+    · subst h10; decide
+    · intro hc; rw [hc] at hu; simp [TYPE.isUnknown] at hu
+  | empty t =>
+    simp only [RData.WF] at h
+    exact ⟨h.2.2, h.2.1, fun _ => h.1⟩
+
+/-- what `RData.writeG` guarantees about the RDATA bytes `b` appended after `out` (the message up
+to and including RDLENGTH) -/
+structure RDataSpec (c : Bool) (out : Bytes) (rd : RData) (b : Bytes) (t' : Table) : Prop where
+  inv : TInv (out ++ b) t'
+  le : b.length ≤ 65535
+  lenEq : c = false → rd.len = b.length
+  plain : ∃ pb, rd.write = .ok pb ∧ b.length ≤ pb.length ∧ (c = false → b = pb)
+  opt : ∀ o, rd = .opt o → b = encTlvs 2 2 o.codes
+  dec : (∀ o, rd ≠ .opt o) →
+    (b = [] ∧ rd = .empty rd.typeOf) ∨
+    (b ≠ [] ∧ ∃ p, parseTyped (out ++ b) out.length rd.typeOf = .ok (rd, p))
+
+theorem RData.writeG_spec (c : Bool) (rd : RData) (off : Nat) (t : Table) (hwf : rd.WF) :
+    ∃ b t', rd.writeG c off t = .ok (b, t') ∧
+      ∀ out : Bytes, out.length = off → TInv out t → RDataSpec c out rd b t' := by
+  cases rd with
+  | flat code vs =>
+    simp only [RData.WF, SchemaOK] at hwf
+    cases hs : schemaOf code with
+    | none => simp [hs] at hwf
+    | some ks =>
+      simp only [hs] at hwf
+      obtain ⟨hok, hfc, hwl⟩ := hwf
+      obtain ⟨f1, f2, ⟨k0, ks0, f3, f3'⟩, _, _⟩ := schemaOf_facts hs
+      have hwl' : (encAll ks vs).length ≤ 65535 := by
+        simpa [RData.writtenLen, RData.write, hs, hfc] using hwl
+      refine ⟨(encAllG c ks vs off t).1, (encAllG c ks vs off t).2, by simp [RData.writeG, hs, hfc],
+        fun out hlen hinv => ?_⟩
+      have hA := encAllG_spec c ks vs off t out hok f1 f2 hlen hinv
+      have hpl : c = false → (encAllG c ks vs off t).1 = encAll ks vs := by
+        intro hc; subst hc; rw [encAllG_false]
+      refine ⟨hA.inv, Nat.le_trans hA.le hwl', ?_, ?_, (fun o h => by cases h), fun _ => Or.inr ?_⟩
+      · intro hc
+        rw [hpl hc]
+        simp only [RData.len, hs]
+        exact lenAll_eq ks vs hok
+      · exact ⟨encAll ks vs, by simp [RData.write, hs, hfc], hA.le, hpl⟩
+      · have hpos := hA.pos k0 ks0 f3 f3'
+        refine ⟨by intro h0; rw [h0] at hpos; simp at hpos, out.length + (encAllG c ks vs off t).1.length, ?_⟩
+        simp only [RData.typeOf]
+        rw [parseTyped_flat _ _ code ks hs, hA.dec]
+        simp [hfc]
+  | ipseckey prec alg gw key =>
+    simp only [RData.WF] at hwf
+    obtain ⟨hp, ha, hgw, hwl⟩ := hwf
+    have hlenw : (gw.write).length = gw.len := by
+      cases gw <;> simp [Gateway.write, Gateway.len, Name.write_length]
+    refine ⟨UInt8.ofNat prec :: UInt8.ofNat gw.tag :: UInt8.ofNat alg :: (gw.write ++ key), t,
+      by simp [RData.writeG, RData.write], fun out hlen hinv => ?_⟩
+    refine ⟨hinv.append _, by simpa [RData.writtenLen, RData.write] using hwl, ?_,
+      ⟨_, rfl, Nat.le_refl _, fun _ => rfl⟩, (fun o h => by cases h), fun _ => Or.inr ⟨by simp, ?_⟩⟩
+    · intro _; simp [RData.len, hlenw]; omega
+    · exact ipseckeyParse_frame out prec alg gw key hp ha hgw
+  | opt o =>
+    simp only [RData.WF] at hwf
+    refine ⟨encTlvs 2 2 o.codes, t, by simp [RData.writeG, RData.write, encOptCodes],
+      fun out hlen hinv => ?_⟩
+    refine ⟨hinv.append _, by simpa [RData.writtenLen, RData.write, encOptCodes] using hwf.2, ?_,
+      ⟨_, rfl, Nat.le_refl _, fun _ => rfl⟩, (fun o' h => by cases h; rfl),
+      fun h => absurd rfl (h o)⟩
+    intro _
+    simp only [RData.len, encTlvs_length]
+  | null code data =>
+    simp only [RData.WF] at hwf
+    obtain ⟨hne, hl, hc, hty⟩ := hwf
+    refine ⟨data, t, by simp [RData.writeG, RData.write], fun out hlen hinv => ?_⟩
+    refine ⟨hinv.append _, hl, fun _ => by simp [RData.len]; omega,
+      ⟨_, rfl, Nat.le_refl _, fun _ => rfl⟩, (fun o h => by cases h),
+      fun _ => Or.inr ⟨hne, out.length + data.length, ?_⟩⟩
+    have hsl : slice (out ++ data) out.length (out ++ data).length = .ok data :=
+      slice_at (a := out) (m := data) (z := []) (by simp) rfl (by simp)
+    simp only [RData.typeOf]
+    rcases hty with h10 | hu
+    · subst h10
+      show parseTyped (out ++ data) out.length .NULL = _
+      simp only [parseTyped, hsl, Out.bind_ok]
+      rw [if_neg (by omega)]; rfl
+    · cases hcode : TYPE.ofCode code <;> rw [hcode] at hu <;> simp [TYPE.isUnknown] at hu
+      rename_i c'
+      have := type_ofCode_unknown hcode
+      subst this
+      simp only [parseTyped, hsl, Out.bind_ok]
+      rw [if_neg (by omega)]; rfl
+  | empty ty =>
+    refine ⟨[], t, by simp [RData.writeG, RData.write], fun out hlen hinv => ?_⟩
+    exact ⟨hinv.append _, by simp, fun _ => by simp [RData.len],
+      ⟨_, rfl, Nat.le_refl _, fun _ => rfl⟩, (fun o h => by cases h), fun _ => Or.inl ⟨rfl, rfl⟩⟩
 
 end Dns
